@@ -35,6 +35,9 @@ def uid_pool(rng):
                 pool.append(u)
                 got += 1
     pool.append("L" * rng.choice([100, 200, 249]) + "@verif")
+    if rng.random() < 0.06:
+        # beyond what the daemon's string table holds per entry (255 octets); a content line takes up to 1023
+        pool.append("M" * rng.choice([250, 294, 700]) + "@verif")
     pool += ["with space@verif", "Mixed/Case:colon@verif", "x"]
     # never two UIDs with the same full 32-bit key: those are one key by design
     seen, out = set(), []
@@ -397,7 +400,12 @@ def run_history(root, part, rng, tier):
             min(stats["create"], 5), min(stats["replace"], 3), min(stats["refused_foreign"], 3), min(stats["refused_claim"], 2),
             min(stats["cancel"], 3), min(stats["cancel_refused_foreign"], 2), min(stats["cancel_unknown"], 2),
             min(stats["listings_judged"], 3), min(stats["foreign_listing_requests"], 2), meta["lowbits"]))
+        longuid = any(len(u) > 255 for o in ops for u in ([i["uid"] for i in o.get("items", [])] + o.get("uids", []) + o.get("q", [])))
+        if longuid:
+            part.count("histories_with_a_uid_over_255_octets")
         for k, d in fails:
+            if longuid:
+                k = "uid-over-255-octets/" + k
             part.violation(k, {"input": sc.text(), "detail": d, "meta": meta, "ops": ops, "t_end": t_end,
                                "summary": "%s (history of %d requests, UIDs sharing %d low key bits)" % (d, meta["nops"], meta["lowbits"])})
         if not fails and len(part.samples) < 2 and stats["refused_foreign"] and stats["replace"] and stats["listings_judged"]:
